@@ -33,6 +33,8 @@ def make_conn(stream, fail_at=None):
     st = {'stream': list(stream), 'eof_seen': False, 'closed': []}
 
     def fileno(interp, base, args, kwargs, node):
+        if 'socket' in st['closed']:
+            return -1               # a closed socket has no descriptor any more
         return ('fd', conn)
 
     def makefile(interp, base, args, kwargs, node):
@@ -84,7 +86,8 @@ def make_conn(stream, fail_at=None):
                                                    'strerror': 'Transport endpoint is not connected'})
         log_event('shutdown')
         return None
-    conn = pm.AMock('conn', {'fileno': fileno, 'makefile': makefile, 'shutdown': shutdown,
+    import socket as _socket
+    conn = pm.AMock('conn', {'like': _socket.socket, 'fileno': fileno, 'makefile': makefile, 'shutdown': shutdown,
                              'close': lambda i, b, a, k, n: st['closed'].append('socket'),
                              'setblocking': lambda i, b, a, k, n: None})
     conn.state = st
@@ -97,6 +100,8 @@ def install_select(ai):
         timeout = args[3] if len(args) > 3 else kwargs.get('timeout')
         log_event('select', timeout)
         fd = rl.items[0] if isinstance(rl, AList) and rl.items else None
+        if isinstance(fd, int) and not isinstance(fd, bool) and fd < 0:
+            raise AbsRaise('ValueError', node, implicit=True, msg='file descriptor cannot be a negative integer (-1)')
         mock = fd[1] if isinstance(fd, tuple) and len(fd) == 2 and fd[0] == 'fd' else None
         if mock is None:
             return AList([AList([]), AList([]), AList([])], 'tuple')
@@ -295,6 +300,49 @@ def r18_live(ctx):
     ctx.floor('R18.6', n, 4)
 
 
+def r18_closed_elsewhere(ctx):
+    """Iteration ends without an exception also when the port is closed by someone else (another thread, a signal handler) while
+    the iterating caller waits for the next message on a connection that is still up: the messages that had arrived come out,
+    then the loop ends.  (The socket is closed under the poll: select() on it raises ValueError, which is an end like any other.)"""
+    ai = pm.make_interp(ctx)
+    install_select(ai)
+    sp = ctx.p.cls(S, 'SocketPort')
+    rc = ctx.p.lookup_method(sp, '_receive')[1]
+    if rc is None:
+        raise AnalysisError('SocketPort._receive not found')
+    w = ctx.where(rc)
+    n1, v1 = smf.sym('n1', 127), smf.sym('v1', 127)
+    n = 0
+    for label, stream, want in (('after one complete message', [0x93, n1, v1], 1), ('before anything arrived', [], 0), ('inside a message', [0x93, n1], 0)):
+        for at in (1, 3):
+            def thunk(stream=stream, at=at):
+                port, conn = build(ai, ctx, list(stream))
+                conn.state['live'] = True
+                ai.sleeps = 0
+
+                def on_sleep(interp):
+                    if interp.sleeps == at and port.attrs.get('closed') is False:
+                        pm.call(interp, ctx, port, 'close')
+                ai.on_sleep = on_sleep
+                try:
+                    return ai.consume(pm.call(ai, ctx, port, '__iter__'))       # (the loop runs here, while the hook is armed)
+                finally:
+                    ai.on_sleep = None
+            outs = ai.explore(thunk)
+            n += 1
+            inst = f'iterate; the port is closed elsewhere during wait #{at}, {label}'
+            oc = c11.one(ctx, 'R18.2', inst, w, outs, f'{rc.qname}::closed-elsewhere')
+            if oc is None:
+                continue
+            items = oc.value.items if oc.kind == 'return' and isinstance(oc.value, AList) else None
+            ctx.require(items is not None and len(items) == want, 'R18.2', inst, w,
+                        f'the loop ends with {oc if items is None else items!r}; expected {want} message(s) and a quiet end',
+                        construct=f'{rc.qname}::closed-elsewhere')
+    ctx.floor('R18.2-closed-elsewhere', n, 6)
+    for q in ai.inlined:
+        ctx.functions.add(q)
+
+
 def r18_decode(ctx):
     """Never a corrupted message: what the port yields for completely received bytes is the message those bytes encode (decoder
     layouts, shared with C01 R01.3) - the socket path ends in Message.from_bytes like every other."""
@@ -445,6 +493,26 @@ def r18_4(ctx):
             ctx.require(ok, 'R18.4', f'PortServer.receive({lab}, message from an accepted client)', w,
                         f'a client accepted earlier has a complete message but the server gives {oc} '
                         '(NonTermination: the call sits in accept() waiting for another client)', construct=f'{rc.qname}::accepted-client-{lab}')
+    # a client that sends several messages and hangs up before the server looks: every one of them is handed out, in order,
+    # by the following polls - the server may drop the connection from its list, but not what it already took in from it
+    for nmsg in (2, 3):
+        def thunk_h(nmsg=nmsg):
+            stream = []
+            for k in range(nmsg):
+                stream += [0x90 + k, n1, v1]
+            holder['clients'] = [make_conn(stream)]          # (no pause at the end: the stream ends, the peer is gone)
+            server = pm.new_port(ai, ctx, 'PortServer', ['localhost', 9080], {}, module=S)
+            ai.sleeps = 0
+            return AList([pm.call(ai, ctx, server, 'poll') for _ in range(nmsg + 2)], 'list')
+        outs = ai.explore(thunk_h)
+        inst = f'PortServer.poll() x {nmsg + 2} after a client sent {nmsg} messages and hung up'
+        oc = c11.one(ctx, 'R18.4', inst, w, outs, f'{rc.qname}::hung-up-client')
+        if oc is not None:
+            got = list(oc.value.items) if oc.kind == 'return' and isinstance(oc.value, AList) else None
+            chans = [x.attrs.get('channel') if isinstance(x, AObj) else x for x in got] if got is not None else None
+            ctx.require(chans is not None and [c for c in chans if c is not None] == list(range(nmsg)) and chans[nmsg:] == [None, None], 'R18.4', inst, w,
+                        f'the polls give messages on channels {chans if chans is not None else oc!r}; expected {list(range(nmsg))} and then nothing: '
+                        'messages a client sent before it hung up are lost', construct=f'{rc.qname}::hung-up-client')
     # server close closes clients and the listening socket
     def thunk_c():
         holder['clients'] = [make_conn([0x91, n1, v1, GAP])]
@@ -516,4 +584,4 @@ def r18_unbounded(ctx):
     parsershape.check_parser_init(ctx, 'R18.9')
 
 
-RULES = [('R18.9', r18_unbounded), ('R18.8', r18_decode), ('R18.7', r18_autoreset_eof), ('R18.6', r18_live), ('R18.1', r18_1), ('R18.3', r18_3), ('R18.4', r18_4), ('R18.5', r18_5)]
+RULES = [('R18.10', r18_closed_elsewhere), ('R18.9', r18_unbounded), ('R18.8', r18_decode), ('R18.7', r18_autoreset_eof), ('R18.6', r18_live), ('R18.1', r18_1), ('R18.3', r18_3), ('R18.4', r18_4), ('R18.5', r18_5)]
